@@ -35,7 +35,7 @@ def _depth_jobs(c, harness, ND, modes, D=3):
             c.add(Job(harness, [('bytes', 'd', n), ('int', m)], weight=3 ** n, opts={'scale_depth': D}))
 
 
-NUMBER_TEMPLATES = [[('D', 1), 8], [b'[]', 9], [b' ', 8, b'null', 8], [('D', 1), b'.', 9], [b'[', ('D', 1), b'.', 8, b']'], [b'-', ('D', 2), b'e', 7], [b'{"":', ('D', 1), b'.', ('D', 1), 6, b'}']]
+NUMBER_TEMPLATES = [[('D', 1), 8], [b'null', 8], [('D', 1), b'.', 9], [b'[', ('D', 1), b'.', 8, b']'], [b'-', ('D', 2), b'e', 7], [b'{"":', ('D', 1), b'.', ('D', 1), 6, b'}']]
 
 
 def _number_jobs(c, harness):
